@@ -39,18 +39,18 @@ def C18_fuel_statement : Prop :=
   ∀ (mode : LiteralMode) (src : String), parse mode src ≠ .diag .fuel
 
 /-- the text `def main():i64{9223372036854775808}` -/
-def literalWitnessSrc : List Char :=
+def C18_literalWitnessSrc : List Char :=
   ['d','e','f',' ','m','a','i','n','(',')',':','i','6','4','{',
    '9','2','2','3','3','7','2','0','3','6','8','5','4','7','7','5','8','0','8','}']
 
 /-- D2: the literal 2^63 makes the parser panic (`i64::from_str(s).unwrap()`); confirmed on the
 real parser: `S0 PANIC … called Result::unwrap() on an Err value: ParseIntError { kind: PosOverflow }`. -/
 theorem C18_literal_witness :
-    (parseChars .panicOnOverflow literalWitnessSrc).isPanic = true := by decide
+    (parseChars .panicOnOverflow C18_literalWitnessSrc).isPanic = true := by decide
 
 /-- the same input is a diagnostic (P-005) for the repaired action -/
 theorem C18_literal_witness_fixed :
-    (parseChars .diagOnOverflow literalWitnessSrc).isPanic = false := by decide
+    (parseChars .diagOnOverflow C18_literalWitnessSrc).isPanic = false := by decide
 
 /-- `-9223372036854775808` cannot be written either: the literal is converted before negation. -/
 theorem C18_min_literal_witness :
@@ -69,11 +69,11 @@ example : (parseChars .panicOnOverflow
 theorem C18_parse_statement_false : ¬ C18_parse_statement .panicOnOverflow := by
   intro h
   have hw := C18_literal_witness
-  cases hp : parseChars .panicOnOverflow literalWitnessSrc with
+  cases hp : parseChars .panicOnOverflow C18_literalWitnessSrc with
   | ok a => rw [hp] at hw; exact absurd hw (by simp [Outcome.isPanic])
   | diag c => rw [hp] at hw; exact absurd hw (by simp [Outcome.isPanic])
   | panic site =>
-    apply h (String.ofList literalWitnessSrc) site
+    apply h (String.ofList C18_literalWitnessSrc) site
     unfold parse
     rw [String.toList_ofList]
     exact hp
@@ -91,7 +91,7 @@ theorem C18_lex_parse_total (mode : LiteralMode) (src : String)
   | panic site => exact parseTokens_panic hp
 
 /-- non-vacuity of `C18_lex_parse_total`: the witness input satisfies the hypothesis -/
-example : (parse .panicOnOverflow (String.ofList literalWitnessSrc)).isPanic = true := by
+example : (parse .panicOnOverflow (String.ofList C18_literalWitnessSrc)).isPanic = true := by
   unfold parse
   rw [String.toList_ofList]
   exact C18_literal_witness
